@@ -56,7 +56,7 @@ fn gen_obj(c: &mut Choice) -> Obj {
         align: u64,
     }
     let mut secs: Vec<S> = vec![];
-    let name_pool: Vec<Vec<u8>> = vec![b".text".to_vec(), b".tex".to_vec(), b".text.hot".to_vec(), b"text".to_vec(), b".data".to_vec(), b".data".to_vec(), b"".to_vec(), vec![b'.', 0xff, 0xfe], b".note".to_vec(), b".note.gnu".to_vec(), b".dynsym".to_vec(), b"x".to_vec()];
+    let name_pool: Vec<Vec<u8>> = vec![b".text".to_vec(), b".tex".to_vec(), b".text.hot".to_vec(), b"text".to_vec(), b".data".to_vec(), b".data".to_vec(), b"".to_vec(), vec![b'.', 0xff, 0xfe], b".note".to_vec(), b".note.gnu".to_vec(), b".dynsym".to_vec(), b"x".to_vec(), b".data\x01".to_vec(), b".text\x01\x01".to_vec(), b"\x01".to_vec(), b".data\x7f".to_vec(), b".tex\xc2\x80".to_vec(), b".a_name_longer_than_sixteen_bytes".to_vec(), b".a_name_longer_than_sixteen_bytes\x01".to_vec()];
     let mut pick_name = |c: &mut Choice, default: &[u8]| -> Vec<u8> {
         if c.chance(90) {
             name_pool[c.idx(name_pool.len())].clone()
@@ -661,7 +661,7 @@ pub fn property() -> Property {
     Property {
         id: "C20",
         level: "exploration",
-        rule: "cases are generated objects with at most one section of each kind, each of .symtab(+strtab), .dynsym(+dynstr), .dynamic, .hash, .gnu.hash present or absent independently, 1..5 filler sections of types REL/RELA/NOTE/STRTAB/NOBITS/PROGBITS, sections in shuffled order (5%: no SHT_NULL entry in front; rarely 65 541+ sections so that indexes and sh_link values exceed 16 bits), names drawn from a pool of prefixes/suffixes of each other, duplicates, the empty name and a non-UTF-8 name, sh_link of the symbol tables pointing at their string table or at ANY section, PT_DYNAMIC only together with .dynamic, PT_NOTE/other segments, class x order x fixed/run-time spec. Oracle: find_common_data() fields vs symbol_table(), dynamic_symbol_table(), dynamic() (presence, every entry, strings at every offset) and vs hash tables rebuilt from section_data (every name looked up through both); section_header_by_name(n) (both parsers) = first header of a manual scan whose UTF-8 name string equals n, for every present name, prefixes, extensions, absent names and queries containing NULs that line up with adjacent string-table entries; every section handed to every typed view (strtab, rels, relas, notes; both parsers): refused iff the type differs, otherwise entries equal the encoded model / the reference walk of the raw bytes; segment_data_as_notes refused iff p_type != PT_NOTE; dynamic() via .dynamic equals dynamic() and find_common_data().dynamic of the stripped twin (e_shoff=0) via PT_DYNAMIC, both parsers. Non-trivial: >=3 kinds present, at least one wrong-type refusal and one duplicate/prefix name query; distinct by file hash. Subcheck damaged: the same objects with one or two fields (sh_entsize, sh_link, sh_size, sh_offset) of the .symtab/.dynsym/.dynamic/.hash/.gnu.hash section headers overwritten with wrong values (0, off by one, the other class's size, counts, beyond EOF, 2^32+right): find_common_data() succeeds exactly when symbol_table(), dynamic_symbol_table(), dynamic() and the hash-table constructors on the raw section bytes all succeed, and then holds the same tables; non-trivial there: both refuse.",
+        rule: "cases are generated objects with at most one section of each kind, each of .symtab(+strtab), .dynsym(+dynstr), .dynamic, .hash, .gnu.hash present or absent independently, 1..5 filler sections of types REL/RELA/NOTE/STRTAB/NOBITS/PROGBITS, sections in shuffled order (5%: no SHT_NULL entry in front; rarely 65 541+ sections so that indexes and sh_link values exceed 16 bits), names drawn from a pool of prefixes/suffixes of each other, duplicates, the empty name, a non-UTF-8 name, names differing from another by a trailing 0x01/0x7f/U+0080 byte and names longer than 16 bytes, sh_link of the symbol tables pointing at their string table or at ANY section, PT_DYNAMIC only together with .dynamic, PT_NOTE/other segments, class x order x fixed/run-time spec. Oracle: find_common_data() fields vs symbol_table(), dynamic_symbol_table(), dynamic() (presence, every entry, strings at every offset) and vs hash tables rebuilt from section_data (every name looked up through both); section_header_by_name(n) (both parsers) = first header of a manual scan whose UTF-8 name string equals n, for every present name, prefixes, extensions, absent names and queries containing NULs that line up with adjacent string-table entries; every section handed to every typed view (strtab, rels, relas, notes; both parsers): refused iff the type differs, otherwise entries equal the encoded model / the reference walk of the raw bytes; segment_data_as_notes refused iff p_type != PT_NOTE; dynamic() via .dynamic equals dynamic() and find_common_data().dynamic of the stripped twin (e_shoff=0) via PT_DYNAMIC, both parsers. Non-trivial: >=3 kinds present, at least one wrong-type refusal and one duplicate/prefix name query; distinct by file hash. Subcheck damaged: the same objects with one or two fields (sh_entsize, sh_link, sh_size, sh_offset) of the .symtab/.dynsym/.dynamic/.hash/.gnu.hash section headers overwritten with wrong values (0, off by one, the other class's size, counts, beyond EOF, 2^32+right): find_common_data() succeeds exactly when symbol_table(), dynamic_symbol_table(), dynamic() and the hash-table constructors on the raw section bytes all succeed, and then holds the same tables; non-trivial there: both refuse.",
         assumptions: &["only refusal (Err) is required for wrong-type views, not a particular error kind", "in subcheck paths objects are well formed, so find_common_data and the targeted accessors are required to succeed; in subcheck damaged only their agreement is required"],
         subs: vec![Sub::new("paths", oracle, 900, 800_000, 25_000_000).shrink(2500), Sub::new("damaged", oracle_damaged, 900, 150_000, 10_000_000).shrink(2500)],
         extras: vec![crate::fuzz::c20_choice_paths, crate::fuzz::c20_choice_damaged],
